@@ -150,7 +150,8 @@ D_snap:                                               \* _flush_batch = count = 
 D_pop:                                                \* (event, channels) = heappop(...); dispatcher(event, channels, remaining)
       ev := Head(batch); rem := Len(batch) - 1; batch := Tail(batch);
       if (Foreign(ev)) {
-D_set:  handling := Ev; dispatched := Append(dispatched, ev);   \* self._currently_handling = event
+        dispatched := Append(dispatched, ev);         \* (the dispatch is logged on entry of _dispatcher)
+D_set:  handling := Ev;                               \* self._currently_handling = event
       } else {
         g := ev[2];
         if (Mutant = "no_arm_lock") {
@@ -231,9 +232,11 @@ F_unl:
     Release();                                        \* ... and fire() returns
     h := None;
     if (Mutant = "append_after_lock") {
-      pending := Append(pending, <<self, n>>); appended[self] := n;
+F_mapp: pending := Append(pending, <<self, n>>); appended[self] := n;
+      returned[self] := n;
+    } else {
+      returned[self] := n;
     };
-    returned[self] := n;
   };
 }
 } *)
@@ -411,23 +414,24 @@ D_pop == /\ pc["loop"] = "D_pop"
          /\ rem' = Len(batch) - 1
          /\ batch' = Tail(batch)
          /\ IF Foreign(ev')
-               THEN /\ pc' = [pc EXCEPT !["loop"] = "D_set"]
+               THEN /\ dispatched' = Append(dispatched, ev')
+                    /\ pc' = [pc EXCEPT !["loop"] = "D_set"]
                     /\ g' = g
                ELSE /\ g' = ev'[2]
                     /\ IF Mutant = "no_arm_lock"
                           THEN /\ pc' = [pc EXCEPT !["loop"] = "M_set"]
                           ELSE /\ pc' = [pc EXCEPT !["loop"] = "A_lock"]
+                    /\ UNCHANGED dispatched
          /\ UNCHANGED << lockOwner, lockDepth, running, handling, gen, 
-                         timeLeft, geHandler, pending, flag, dispatched, 
-                         appended, returned, stack, ri, rv, tl, fade, n, h >>
+                         timeLeft, geHandler, pending, flag, appended, 
+                         returned, stack, ri, rv, tl, fade, n, h >>
 
 D_set == /\ pc["loop"] = "D_set"
          /\ handling' = Ev
-         /\ dispatched' = Append(dispatched, ev)
          /\ pc' = [pc EXCEPT !["loop"] = "D_clr"]
          /\ UNCHANGED << lockOwner, lockDepth, running, gen, timeLeft, 
-                         geHandler, pending, batch, flag, appended, returned, 
-                         stack, ri, rv, ev, rem, tl, g, fade, n, h >>
+                         geHandler, pending, batch, flag, dispatched, appended, 
+                         returned, stack, ri, rv, ev, rem, tl, g, fade, n, h >>
 
 H_idle == /\ pc["loop"] = "H_idle"
           /\ geHandler' = [geHandler EXCEPT ![g] = "idle"]
@@ -746,15 +750,22 @@ F_unl(self) == /\ pc[self] = "F_unl"
                   /\ lockOwner' = (IF lockDepth = 1 THEN "none" ELSE lockOwner)
                /\ h' = [h EXCEPT ![self] = None]
                /\ IF Mutant = "append_after_lock"
-                     THEN /\ pending' = Append(pending, <<self, n[self]>>)
-                          /\ appended' = [appended EXCEPT ![self] = n[self]]
-                     ELSE /\ TRUE
-                          /\ UNCHANGED << pending, appended >>
-               /\ returned' = [returned EXCEPT ![self] = n[self]]
-               /\ pc' = [pc EXCEPT ![self] = "F_next"]
+                     THEN /\ pc' = [pc EXCEPT ![self] = "F_mapp"]
+                          /\ UNCHANGED returned
+                     ELSE /\ returned' = [returned EXCEPT ![self] = n[self]]
+                          /\ pc' = [pc EXCEPT ![self] = "F_next"]
                /\ UNCHANGED << running, handling, gen, timeLeft, geHandler, 
-                               batch, flag, dispatched, stack, ri, rv, ev, rem, 
-                               tl, g, fade, n >>
+                               pending, batch, flag, dispatched, appended, 
+                               stack, ri, rv, ev, rem, tl, g, fade, n >>
+
+F_mapp(self) == /\ pc[self] = "F_mapp"
+                /\ pending' = Append(pending, <<self, n[self]>>)
+                /\ appended' = [appended EXCEPT ![self] = n[self]]
+                /\ returned' = [returned EXCEPT ![self] = n[self]]
+                /\ pc' = [pc EXCEPT ![self] = "F_next"]
+                /\ UNCHANGED << lockOwner, lockDepth, running, handling, gen, 
+                                timeLeft, geHandler, batch, flag, dispatched, 
+                                stack, ri, rv, ev, rem, tl, g, fade, n, h >>
 
 S_stop(self) == /\ pc[self] = "S_stop"
                 /\ running' = FALSE
@@ -765,7 +776,7 @@ S_stop(self) == /\ pc[self] = "S_stop"
                                 g, fade, n, h >>
 
 firer(self) == F_next(self) \/ F_lock(self) \/ F_rdh(self) \/ F_app(self)
-                  \/ F_unl(self) \/ S_stop(self)
+                  \/ F_unl(self) \/ F_mapp(self) \/ S_stop(self)
 
 (* Allow infinite stuttering to prevent deadlock on termination. *)
 Terminating == /\ \A self \in ProcSet: pc[self] = "Done"
